@@ -1,7 +1,7 @@
-\* design level, quick: the ideal specification satisfies the property (3 hole slots, 4 actions, or Populate + 3)
+\* design level, quick: the ideal specification satisfies the property (2 hole slots, 4 actions, or Populate + 3)
 SPECIFICATION Spec
 CONSTANTS
-  MaxHoles = 3
+  MaxHoles = 2
   Names = {"a", "b"}
   DepthLens = {1, 2}
   Version = 21
